@@ -58,9 +58,15 @@ def build(S, tier):
         for uf in ("tanh", "exp"):
             label = f"{FB}.update_delta[{scheme},{uf}]"
 
-            def run(I, scheme=scheme, uf=uf, calc="has", twice=False):
+            def run(I, scheme=scheme, uf=uf, calc="has", twice=False, warm=False):
                 n = I.path.fresh("n", "int")
                 I.path.assume(n.t >= 1)
+                if warm:
+                    a0 = AtomsFB(I, n, calc=calc)
+                    lo0, hi0, ref0 = I.path.fresh("other_lo"), I.path.fresh("other_hi"), I.path.fresh("other_ref")
+                    I.path.assume(z3.And(lo0.t <= hi0.t, ref0.t > 0))
+                    other = I.call(I.get_class(FB), [a0, lo0, hi0], {"reference_variance": ref0, "seed": 2, "scheme": scheme, "update_function": uf})
+                    I.call(I.getattr(other, "update_delta"), [], {})
                 atoms = AtomsFB(I, n, calc=calc)
                 lo, hi, ref = I.path.fresh("lo"), I.path.fresh("hi"), I.path.fresh("ref")
                 I.path.assume(z3.And(lo.t <= hi.t, ref.t > 0))
@@ -69,6 +75,10 @@ def build(S, tier):
                 mc = I.call(I.get_class(FB), [atoms, lo, hi], {"reference_variance": ref_init, "seed": 1, "scheme": scheme, "update_function": uf})
                 # the reference variance is a public attribute: the clauses refer to its CURRENT value
                 I.setattr(mc, "reference_variance", ref)
+                if warm:
+                    I.call(I.getattr(mc, "update_delta"), [], {})          # an earlier update of the same instance, other data
+                    if atoms.calc:
+                        atoms.calc.results.present.clear()
                 I.call(I.getattr(mc, "update_delta"), [], {})
                 d1, v1 = rep(mc.attrs["delta"]), rep(mc.attrs["variation_coef"])
                 shape_ok = True
@@ -85,44 +95,50 @@ def build(S, tier):
                                present2=dict(atoms.calc.results.present) if atoms.calc else None)
                 return out
 
-            paths = S.explore(run, label)
-            for fn in ("update_delta", "get_forces_variation_coef", "get_energy_variation_coef", "tanh_update", "exp_update", "__init__"):
-                S.register_function(S.new_interp(), f"{FB}.{fn}", len(paths))
             key = "forces_comm" if scheme == "forces" else "energies"
-            for i, p in enumerate(paths):
-                S.adopt(p, prefix=f"[{scheme},{uf}]")
-                if p.status == "unsupported":
-                    continue
-                if p.status != "return":
-                    S.prove(f"{label}#noraise@{i}", False, kind="noraise", why=f"raises {p.exc!r}")
-                    continue
-                v = p.value
-                lo, hi, ref = v["lo"].t, v["hi"].t, v["ref"].t
-                d, var = to_z3(v["d1"], "real"), to_z3(v["v1"], "real")
-                has = v["present"].get(key)
-                tag = "committee" if has else "fallback"
-                lem = lemma_instances(d)
-                S.prove(f"{label}#ensures.per_coordinate_shape[{tag}]@{i}", bool(v["shape_ok"]), kind="ensures",
-                        why="delta/variation are not (n_atoms,3) arrays in the forces scheme")
-                if not has:
-                    S.prove(f"{label}#ensures.fallback_uses_reference_variance@{i}", var == ref, hyps=p.pc)
-                    S.prove(f"{label}#ensures.fallback_midpoint@{i}", d == (lo + hi) / 2, hyps=p.pc + lem)
-                    continue
-                hy = p.pc + lem
-                rinfo = {"native": "C18", "kind": "clauses", "syms": {"lo": v["lo"], "hi": v["hi"], "ref": v["ref"], "v": Sym(var)},
-                         "extra": {"scheme": scheme, "update_function": uf}}
-                S.prove(f"{label}#ensures.range@{i}", z3.And(lo <= d, d <= hi), hyps=hy + [var >= 0]).info["replay"] = rinfo
-                S.prove(f"{label}#ensures.max_at_zero@{i}", d == hi, hyps=hy + [var == 0]).info["replay"] = rinfo
-                S.prove(f"{label}#ensures.midpoint_at_reference@{i}", d == (lo + hi) / 2, hyps=hy + [var == ref]).info["replay"] = rinfo
-                eps = z3.Real("eps")
-                # limit: for every eps>0 there is a threshold (explicit) beyond which delta-min < eps*(max-min)
-                c = z3.Real("c_rate")      # c = atanh(1/2)/ref (tanh) or log(2)/ref (exp): positive rate constant
-                from pyvc.values import F_atanh, F_log
-                # explicit threshold valid for either shipped update function (so that the clause does
-                # not depend on which of the two is installed under which name)
-                ob = S.prove(f"{label}#ensures.tends_to_min@{i}", d - lo < eps * (hi - lo),
-                             hyps=hy + [eps > 0, hi > lo, var >= 0, var * F_atanh(z3.RealVal("1/2")) / ref > 1 / eps,
-                                        var * F_log(z3.RealVal(2)) / ref > 1 / eps])
+
+            def judge(paths, label):
+                for fn in ("update_delta", "get_forces_variation_coef", "get_energy_variation_coef", "tanh_update", "exp_update", "__init__"):
+                    S.register_function(S.new_interp(), f"{FB}.{fn}", len(paths))
+                key = "forces_comm" if scheme == "forces" else "energies"
+                for i, p in enumerate(paths):
+                    S.adopt(p, prefix=f"[{scheme},{uf}]")
+                    if p.status == "unsupported":
+                        continue
+                    if p.status != "return":
+                        S.prove(f"{label}#noraise@{i}", False, kind="noraise", why=f"raises {p.exc!r}")
+                        continue
+                    v = p.value
+                    lo, hi, ref = v["lo"].t, v["hi"].t, v["ref"].t
+                    d, var = to_z3(v["d1"], "real"), to_z3(v["v1"], "real")
+                    has = v["present"].get(key)
+                    tag = "committee" if has else "fallback"
+                    lem = lemma_instances(d)
+                    S.prove(f"{label}#ensures.per_coordinate_shape[{tag}]@{i}", bool(v["shape_ok"]), kind="ensures",
+                            why="delta/variation are not (n_atoms,3) arrays in the forces scheme")
+                    if not has:
+                        S.prove(f"{label}#ensures.fallback_uses_reference_variance@{i}", var == ref, hyps=p.pc)
+                        S.prove(f"{label}#ensures.fallback_midpoint@{i}", d == (lo + hi) / 2, hyps=p.pc + lem)
+                        continue
+                    hy = p.pc + lem
+                    rinfo = {"native": "C18", "kind": "clauses", "syms": {"lo": v["lo"], "hi": v["hi"], "ref": v["ref"], "v": Sym(var)},
+                             "extra": {"scheme": scheme, "update_function": uf}}
+                    S.prove(f"{label}#ensures.range@{i}", z3.And(lo <= d, d <= hi), hyps=hy + [var >= 0]).info["replay"] = rinfo
+                    S.prove(f"{label}#ensures.max_at_zero@{i}", d == hi, hyps=hy + [var == 0]).info["replay"] = rinfo
+                    S.prove(f"{label}#ensures.midpoint_at_reference@{i}", d == (lo + hi) / 2, hyps=hy + [var == ref]).info["replay"] = rinfo
+                    eps = z3.Real("eps")
+                    # limit: for every eps>0 there is a threshold (explicit) beyond which delta-min < eps*(max-min)
+                    c = z3.Real("c_rate")      # c = atanh(1/2)/ref (tanh) or log(2)/ref (exp): positive rate constant
+                    from pyvc.values import F_atanh, F_log
+                    # explicit threshold valid for either shipped update function (so that the clause does
+                    # not depend on which of the two is installed under which name)
+                    ob = S.prove(f"{label}#ensures.tends_to_min@{i}", d - lo < eps * (hi - lo),
+                                 hyps=hy + [eps > 0, hi > lo, var >= 0, var * F_atanh(z3.RealVal("1/2")) / ref > 1 / eps,
+                                            var * F_log(z3.RealVal(2)) / ref > 1 / eps])
+            judge(S.explore(run, label), label)
+            # the same clauses for an instance that is not the first user of the class and has updated before (caches shared
+            # between instances or carried from one update to the next must not matter)
+            judge(S.explore(lambda I, s=scheme, u=uf: run(I, s, u, "has", False, True), label + "[after other updates]"), label + "[after other updates]")
             # monotonicity needs two evaluations on one object
             paths2 = S.explore(lambda I, s=scheme, u=uf: run(I, s, u, "has", True), label + "[twice]")
             for i, p in enumerate(paths2):
